@@ -404,6 +404,7 @@ type BRDesc struct {
 	Lock    string `json:"lock"`
 	Seqfin  bool   `json:"seqfin"`
 	Ltx     string `json:"ltx"`
+	Ntx     int    `json:"ntx"` // transactions incl. the coinbase in layout "first"
 	Merkle  string `json:"merkle"`
 	Commit  string `json:"commit"`
 	Witdata bool   `json:"witdata"`
@@ -612,20 +613,23 @@ func (bc *BRChain) Build(c *BRCtx, d *BRDesc, r *BRRes, serial int, now int64) (
 				seqA[1] = 0xfffffffe
 			}
 		}
-		// the weight filler rides on transaction a; witness padding on transaction b; an optional third
-		// transaction makes the count odd where the duplicate-tail mutation needs it
-		h3 := 1 + (serial+2)%nm
-		return bc.assemble(c, d, r, out, serial, hdr, func(fill []*btc.TxOut, witpad int, third bool) []*btc.Tx {
+		// the weight filler rides on transaction a; witness padding on transaction b; further plain
+		// transactions (one input each, from other matured coinbases) bring the count to d.Ntx - 1
+		if d.Ntx < 3 || d.Ntx-1 > nm {
+			return nil, fmt.Errorf("cannot build %d transactions in context %s", d.Ntx, c.ID)
+		}
+		return bc.assemble(c, d, r, out, serial, hdr, func(fill []*btc.TxOut, witpad int) []*btc.Tx {
 			txa = mk(h1, []int{0, 1}, lockA, seqA, false, fill, 0)
 			if d.Witdata {
 				txb = mk(h2, []int{2, 4}, 0, []uint32{0xffffffff, 0xffffffff}, true, nil, witpad)
 			} else {
 				txb = mk(h2, []int{2, 3}, 0, []uint32{0xffffffff, 0xffffffff}, false, nil, 0)
 			}
-			if third {
-				return []*btc.Tx{txa, txb, mk(h3, []int{0}, 0, []uint32{0xffffffff}, false, nil, 0)}
+			txs := []*btc.Tx{txa, txb}
+			for k := 2; len(txs) < d.Ntx-1; k++ {
+				txs = append(txs, mk(1+(serial+k)%nm, []int{0}, 0, []uint32{0xffffffff}, false, nil, 0))
 			}
-			return []*btc.Tx{txa, txb}
+			return txs
 		})
 	}
 	return bc.assemble(c, d, r, out, serial, hdr, nil)
@@ -662,7 +666,7 @@ func fillerOuts(n int) []*btc.TxOut {
 }
 
 func (bc *BRChain) assemble(c *BRCtx, d *BRDesc, r *BRRes, out *BRBuilt, serial int, hdr func([32]byte, bool) []byte,
-	mkTxs func(fill []*btc.TxOut, witpad int, third bool) []*btc.Tx) (*BRBuilt, error) {
+	mkTxs func(fill []*btc.TxOut, witpad int) []*btc.Tx) (*BRBuilt, error) {
 	H := c.P + 1
 	lockOnCb := d.Ltx == "cb"
 
@@ -818,10 +822,7 @@ func (bc *BRChain) assemble(c *BRCtx, d *BRDesc, r *BRRes, out *BRBuilt, serial 
 	if targets != nil && mkTxs == nil {
 		return nil, fmt.Errorf("weight classes need transactions")
 	}
-	third := false
-	if d.Merkle == "duptail" && mkTxs != nil && (d.Cb == "none" || d.Cb == "two") {
-		third = true
-	}
+	dupK := map[string]int{"dup1": 1, "dup2": 2, "dup4": 4}[d.Merkle]
 	var txs []*btc.Tx
 	make1 := func(fill, witpad int) error {
 		var others []*btc.Tx
@@ -830,7 +831,7 @@ func (bc *BRChain) assemble(c *BRCtx, d *BRDesc, r *BRRes, out *BRBuilt, serial 
 			if fill > 0 {
 				fo = fillerOuts(fill)
 			}
-			others = mkTxs(fo, witpad, third)
+			others = mkTxs(fo, witpad)
 		}
 		cb, e := mkCoinbase(others)
 		if e != nil {
@@ -840,11 +841,14 @@ func (bc *BRChain) assemble(c *BRCtx, d *BRDesc, r *BRRes, out *BRBuilt, serial 
 		if e != nil {
 			return e
 		}
-		if d.Merkle == "duptail" {
-			if len(txs)%2 == 0 {
-				return fmt.Errorf("duplicate-tail mutation needs an odd transaction count")
+		if dupK > 0 {
+			// CVE-2012-2459: append a copy of the last dupK transactions; the root is preserved when the tree
+			// has an odd number of nodes at that level (checked below against the honest list's root)
+			n := len(txs)
+			if n%dupK != 0 || (n/dupK)%2 != 1 || n/dupK < 2 {
+				return fmt.Errorf("%d transactions cannot be extended by their last %d without changing the root", n, dupK)
 			}
-			txs = append(txs, txs[len(txs)-1])
+			txs = append(txs, txs[n-dupK:]...)
 		}
 		out.Weight = BlockWeight(txs)
 		return nil
@@ -904,8 +908,8 @@ func (bc *BRChain) assemble(c *BRCtx, d *BRDesc, r *BRRes, out *BRBuilt, serial 
 		leaves[i] = t.Hash.Hash
 	}
 	root := Merkle(leaves)
-	if d.Merkle == "duptail" {
-		if root != Merkle(leaves[:len(leaves)-1]) {
+	if dupK > 0 {
+		if root != Merkle(leaves[:len(leaves)-dupK]) {
 			return nil, fmt.Errorf("duplicate-tail mutation does not keep the merkle root")
 		}
 	}
